@@ -3,6 +3,81 @@
 from translate import generator, lean_str, lean_nat_list
 
 
+def _auth_wrapper(q):
+    """what `safely_unquote_auth_item` does besides the partial whose flags are read above, PROBED on the real
+    function, every non-ASCII code point: the set of code points whose escapes it keeps (upper-case escapes of
+    the UTF-8 bytes, also when the character is given raw) while the partial of the same configuration decodes
+    them.  FX-C01-NFKCUSERINFO: that set must be `Gen.nfkcDelimCodes` (what the running `urlsplit` refuses in a
+    netloc), compared by the obligation `Props.C14.tables_auth_wrapper`; on the unfixed code it is empty."""
+    from functools import partial
+
+    from gen_tables.c08 import nfkc_rejected_codes
+
+    f = q.safely_unquote_auth_item
+    inner = partial(q.unquote, only_printable=True, normalize_space=True, unsafe=q.UNSAFE_FOR_AUTH_ITEM, lossless=True)
+
+    def esc(ch, lower=False):
+        e = "".join("%%%02X" % b for b in ch.encode("utf-8"))
+        return e.lower() if lower else e
+
+    import unicodedata
+
+    cps = [c for c in range(0x80, 0x110000) if not (0xD800 <= c < 0xE000)]
+    # the other two spellings: every code point with a compatibility form of its own (all the candidates), the
+    # ranges safely_quote_qsl is probed on, the UTF-8 length boundaries
+    some = sorted(
+        set(c for c in cps if unicodedata.normalize("NFKC", chr(c)) != chr(c))
+        | set(range(0x80, 0x3100))
+        | set(c for c in range(0x3100, 0x110000, 61) if not (0xD800 <= c < 0xE000))
+        | {0x7FF, 0x800, 0xFFFF, 0x10000, 0x10FFFF}
+    )
+    sep = ","
+    # one call per spelling on the whole range (the characters are separated by an ASCII comma, which neither
+    # function touches): escaped upper-case (every code point), escaped lower-case, raw
+    spellings = [
+        (cps, sep.join(esc(chr(c)) for c in cps)),
+        (some, sep.join(esc(chr(c), True) for c in some)),
+        (some, sep.join(chr(c) for c in some)),
+    ]
+    requoted = None
+    shape = True
+    for pts, sp in spellings:
+        a, b = f(sp).split(sep), inner(sp).split(sep)
+        if len(a) != len(pts) or len(b) != len(pts):
+            shape = False
+            break
+        diff = [c for c, x, y in zip(pts, a, b) if x != y]
+        # where the two differ the public function gives the upper-case escapes
+        shape = shape and all(x == esc(chr(c)) for c, x, y in zip(pts, a, b) if x != y)
+        if requoted is None:
+            requoted = diff
+        elif requoted != diff:
+            shape = False
+    requoted = requoted or []
+    table = nfkc_rejected_codes()
+    # in context: next to other text, behind an ill-formed byte, next to a kept delimiter; ASCII untouched
+    ctx = all(
+        f("a" + esc(chr(c)) + "%40%C3%A9") == "a" + esc(chr(c)) + "%40\u00e9"
+        and f("%EF" + esc(chr(c), True)) == "%EF" + esc(chr(c))
+        and f(f(esc(chr(c)))) == esc(chr(c))
+        for c in requoted
+    ) and all(f(chr(c)) == inner(chr(c)) and f("%%%02X" % c) == inner("%%%02X" % c) for c in range(0x80))
+    ok = shape and ctx and requoted == table
+    return [
+        "/-- the non-ASCII code points `safely_unquote_auth_item` keeps escaped (as the upper-case escapes of their",
+        "UTF-8 bytes) while `partial(unquote, …)` of the same configuration decodes them — probed on the real function, every",
+        "code point U+0080–U+10FFFF written with upper-case escapes; with lower-case escapes and raw: every code point that",
+        "has a compatibility form of its own, U+0080–U+30FF, every 61st code point above -/",
+        "def authItemRequotedCodes : List Nat := %s" % lean_nat_list(requoted),
+        "/-- `safely_unquote_auth_item` is the partial followed by the re-quoting of the characters `urlsplit` refuses in",
+        "a netloc for their NFKC form (FX-C01-NFKCUSERINFO): the probed set above is the table observed on the running",
+        "`urlsplit` (`Gen.nfkcDelimCodes`), the re-quoted form is `quote(char)`, also in context (next to text, behind an",
+        "ill-formed byte, applied twice), and every ASCII character / escape is treated as the partial treats it -/",
+        "def authItemRequotesNfkcDelims : Bool := %s" % ("true" if ok else "false"),
+        "",
+    ]
+
+
 @generator
 def gen_quote():
     import ural.quote as q
@@ -28,6 +103,11 @@ def gen_quote():
         ("fragment", "safely_unquote_fragment", "UNSAFE_FOR_FRAGMENT"),
     ]:
         p = getattr(q, py_name)
+        if py_name == "safely_unquote_auth_item" and not hasattr(p, "func"):
+            # FX-C01-NFKCUSERINFO: the public name is a plain function wrapping the partial
+            # `_safely_unquote_auth_item`; the flags are those of the inner partial, what the wrapper adds
+            # is probed below (`authItemRequotesNfkcDelims`)
+            p = getattr(q, "_" + py_name, p)
         kw = dict(getattr(p, "keywords", None) or {})
         func = getattr(p, "func", None)
         flags = [
@@ -44,6 +124,7 @@ def gen_quote():
         )
         out.append("def %sFlags : List Bool := [%s]" % (lean_name, ", ".join("true" if f else "false" for f in flags)))
         out.append("")
+    out.extend(_auth_wrapper(q))
     for lean_name, rx in [
         ("quotedSplitPattern", q.QUOTED_SPLIT_RE),
         ("quotedPattern", q.QUOTED_RE),
